@@ -7,6 +7,8 @@ A case is (cfg, script): cfg = dict(cap, handles, mt, rmin, rmax); script = list
   ('F', tx, k) whole reply frame, k in 'g' genuine 'e' exception 'b' wrong function
   ('P', tx, k) ('Q',) frame split in two   ('G',) rejected header  ('Z',) EOF  ('R',) read error
   ('W',) next write fails  ('V', ns) next write takes ns   ('T', ns) advance virtual time
+  kind 'b' = a BIG read (125 registers, 259-byte reply)   ('FL', tx, k) whole LARGE reply frame
+  ('FS', tx, a) a well-formed frame with a registers delivered in the SAME read chunk as the next FL (stale frame + reply, > 260 bytes)
   ('WP',) the transport's transmit path is full: it takes nothing until released (parks add up)  ('WR',) one park is over
   ('WA', k) the transport takes at most k bytes of what is offered next (invisible to the task)
 
@@ -48,7 +50,7 @@ def to_line(case):
 def step_coq(s):
     t = s[0]
     if t == 'S':
-        kind = 'KRead' if s[2] == 'r' else 'KUnformattable'
+        kind = 'KUnformattable' if s[2] == 'u' else 'KRead'
         return f'EvSubmit (CReq {{| rq_id := {s[1]}; rq_kind := {kind}; rq_timeout := {s[3]} |}}) {STYLE[s[4]]}'
     if t == 'E':
         return f'EvSubmit CEnable {STYLE[s[1]]}'
@@ -66,8 +68,10 @@ def step_coq(s):
         return 'EvConnect true'
     if t == 'CE':
         return 'EvConnect false'
-    if t == 'F':
+    if t in ('F', 'FL'):
         return f'EvFrame {s[1]} {REPLY[s[2]]}'
+    if t == 'FS':
+        return f'EvFrame {s[1]} RpGenuine'
     if t == 'P':
         return f'EvHead {s[1]} {REPLY[s[2]]}'
     if t == 'WA':
@@ -160,11 +164,14 @@ def edge(a, b):
 def spec_failures(case, line):
     """the property statements read on ONE log (implementation or model); returns a list of failed clause names"""
     cfg, script = case
-    script = plain(script)
+    # large frames are frames: FL = a whole reply of 259 bytes, FS = a well-formed (stale) frame in the same read chunk
+    script = [('F', s[1], s[2]) if s[0] == 'FL' else ('F', s[1], 'g') if s[0] == 'FS' else s for s in plain(script)]
     p = parse(line)
     if p is None:
         return ['panic-or-garbled-output']
     bad = []
+    if any(c[1] == 'WrongData' for c in p['comp']):
+        bad.append('C10.reply-data-differs-from-the-frame-that-arrived')
     submitted = [s[1] for s in script if s[0] == 'S']
     kinds = {s[1]: s for s in script if s[0] == 'S'}
     ids = [c[0] for c in p['comp']]
@@ -293,9 +300,20 @@ def spec_failures(case, line):
     now = 0
     part = None
     answered = set()
+    # while a write is in progress the script's inbound steps are not delivered (harness and model alike: the task does not
+    # read then); the log does not say when a slow / parked write began, so with such steps in the script a split frame makes
+    # the rest of that connection unjudgeable here
+    has_slow = any(st[0] in ('WP', 'V') for st in script)
+    blind = False
     for j, st in enumerate(script):
         if st[0] == 'T':
             now += st[1]
+            continue
+        if st[0] == 'CO':
+            blind = False
+        if has_slow and st[0] in ('P', 'Q'):
+            blind = True
+        if blind:
             continue
         fr = None
         if st[0] == 'P':
@@ -324,6 +342,10 @@ def spec_failures(case, line):
             c = comp_of.get(i)
             if c is None or c[1] != cls_of[fr[1]] or c[2] != now or cs != j:
                 bad.append('C11.request-answered-in-time-does-not-complete-with-its-reply')
+                if c is not None and c[1] != cls_of[fr[1]]:
+                    bad.append('C10.error-class-does-not-tell-what-happened')        # e.g. a valid reply in time => Ok
+                if fr[1] == 'g':
+                    bad.append('C12.reply-completed-before-the-deadline-but-the-request-did-not-succeed')
     # C13 / C14: a wait state is left exactly when the announced delay is over - at the first instant of the script at or after
     # wait_start + delay (timer resolution) - whatever commands are handled in between; it is left earlier only by a disable
     # or by the end of the task
@@ -463,6 +485,7 @@ class Sim:
         self.wpark = 0        # parks of the transmit path not yet released
         self.wdl = 0          # while writing: write start + request timeout
         self.req = None       # (id, timeout, tx, deadline / until)
+        self.req_big = False  # the outstanding request is a big read: its genuine reply is an FL frame
         self.until = 0
         self.nl = 1           # listener notifications so far (the initial Disabled)
         self.nc = 0           # completions so far
@@ -532,6 +555,7 @@ class Sim:
                     self.ph = 'InFlight'
                     self.req = (c[1], c[3], tx)
                     self.until = self.now + c[3]
+                self.req_big = c[2] == 'b'
             elif c[0] == 'X':
                 self._end('Shutdown')
             else:
@@ -632,6 +656,9 @@ class Sim:
                 if t == 'CO':
                     self.rcur = self.cfg['rmin']
                 self._connect_result(t == 'CO')
+        elif t in ('FL', 'FS'):
+            self.apply(('F', s[1], s[2] if t == 'FL' else 'g'))
+            return
         elif t in ('F', 'P', 'Q', 'G', 'Z', 'R') and self.ph in ('Idle', 'InFlight'):
             if t in ('Z', 'R'):
                 if self.ph == 'InFlight':
@@ -667,6 +694,14 @@ class Sim:
 # ------------------------------------------------------------------------------- shrinking and reporting
 def shrink_candidates(case):
     cfg, script = case
+    if any(s[0] == 'FS' for s in plain(script)):
+        # a stale frame (FS) is built for a transaction id that is NOT outstanding when it is delivered with the next FL:
+        # only changes that keep this true are tried - drop a stale frame, drop what follows the last large frame
+        last = max(k for k, s in enumerate(script) if plain([s])[0][0] in ('FS', 'FL'))
+        for k in range(len(script)):
+            if k > last or plain([script[k]])[0][0] == 'FS':
+                yield (cfg, script[:k] + script[k + 1:])
+        return
     for k in range(len(script)):
         yield (cfg, script[:k] + script[k + 1:])
     for k, s in enumerate(script):
@@ -822,7 +857,8 @@ def gen_random(r, cfg, nsteps, weights=None, alphabet=None, prefix=()):
         t = r.choices(opts, weights=[w[o] for o in opts])[0]
         if t == 'S':
             style = r.choices('fcx', weights=[5, 2, 2])[0]
-            kind = 'u' if r.random() < 0.08 else 'r'
+            # a big read only when no small frame is half delivered (its rest would then answer the big request)
+            kind = 'u' if r.random() < 0.08 else 'b' if (not cfg.get('rtu') and sim.partial is None and r.random() < 0.12) else 'r'
             s = ('S', next_id, kind, r.choice(TIMEOUTS), style)
             next_id += 1
         elif t in ('E', 'D'):
@@ -836,6 +872,13 @@ def gen_random(r, cfg, nsteps, weights=None, alphabet=None, prefix=()):
             else:
                 tx = (cur + r.choice([0, 0, 0, 0, 0, -1, -1, 1, -2, 2, -3, 7, 65535, 32768])) % 65536
             s = (t, tx, r.choices('geb', weights=[5, 2, 2])[0])
+            if cur is not None and sim.req_big and not cfg.get('rtu'):
+                # a big read is outstanding: its reply is a large frame, often behind a stale frame in the same read chunk
+                if tx == cur and r.random() < 0.6:
+                    stale = ('FS', (cur - r.choice([1, 1, 2, 3])) % 65536, r.choice([1, 2, 10, 60, 125]))
+                    script.append(stale)
+                    sim.apply(stale)
+                s = ('FL', tx, s[2])
         elif t == 'V':
             s = ('V', r.choice([MS, 2 * MS, 3 * MS + 1, 10 * MS]))
         elif t == 'WA':
@@ -928,6 +971,39 @@ def gen_parked(r):
     sc = connected_prefix() + [S(0, 5 * MS), ('T', 5 * MS), ('WP',), S(1, 5 * MS), ('T', 5 * MS), ('WR',), ('T', 20 * MS), ('CO',),
                                S(2, 5 * MS), ('T', 5 * MS), S(3, 5 * MS), ('T', 5 * MS), ('T', 60 * MS), ('T', 60 * MS), ('T', 1)]
     out.append(((cfg, sc), {0: ('Timeout', 5 * MS), 1: ('Io', 10 * MS), 2: ('Timeout', 35 * MS), 3: ('Timeout', 40 * MS)}))
+    return out
+
+
+def gen_large(r):
+    """large reply frames: a big read (125 registers: the reply is 259 bytes, one byte short of the receive buffer) answered in
+    time by a valid frame that arrives in the SAME read chunk behind one or two stale frames (replies to requests that timed
+    out), so that the reply straddles the end of the receive buffer.  Spec by construction: a valid reply in time => Ok (an
+    exception reply => Exception, a reply with another function code => BadResponse), at the instant it arrived, and the
+    connection stays usable."""
+    out = []
+    cls = {'g': 'Ok', 'e': 'Exception', 'b': 'BadResponse'}
+    cfg = {'cap': 4, 'handles': 1, 'mt': 0, 'rmin': 20 * MS, 'rmax': 40 * MS}
+    for tmo in (5 * MS, 1500000):
+        for stale in ([1], [2], [10], [60], [125], [1, 1], [60, 3], [125, 125]):
+            for kind in 'geb':
+                for when in ('at-once', 'last-instant'):
+                    sc = connected_prefix(r.choice('fx'))
+                    now = 0
+                    for j in range(len(stale)):
+                        sc += [('S', j, 'r', MS, 'f'), ('T', MS)]          # times out: its reply, when it comes, is stale
+                        now += MS
+                    k = len(stale)
+                    sc.append(('S', k, 'b', tmo, r.choice('fcx')))
+                    if when == 'last-instant':
+                        d = fires_at(now + tmo) - 1 - now
+                        sc.append(('T', d))
+                        now += d
+                    for j, a in enumerate(stale):
+                        sc.append(('FS', j, a))
+                    sc.append(('FL', k, kind))
+                    sc += [('S', k + 1, 'r', 5 * MS, 'f'), ('F', k + 1, 'g'), ('S', k + 2, 'b', 5 * MS, 'f'), ('FL', k + 2, 'g')]
+                    exp = {k: (cls[kind], now), k + 1: ('Ok', now), k + 2: ('Ok', now)}
+                    out.append(((cfg, sc), exp))
     return out
 
 
